@@ -506,6 +506,14 @@ def loudness_cases():
         "grad_matrix_output": lambda: grad(lambda v: anp.outer(v, v))(x),
         "grad_tuple_output": lambda: grad(lambda v: (anp.sum(v), anp.sum(v)))(x),
         "grad_complex_output": lambda: grad(lambda v: anp.sum(v) * (1.0 + 2.0j))(x),
+        # complex outputs of every precision and container flavour
+        "grad_complex64_array_output": lambda: grad(lambda v: (anp.sum(v) * onp.ones(1, dtype=onp.complex64)))(x),
+        "grad_complex64_scalar_output": lambda: grad(lambda v: anp.sum(v) * onp.complex64(1.0 + 2.0j))(x),
+        "grad_clongdouble_output": lambda: grad(lambda v: anp.sum(v) * onp.ones((), dtype=onp.clongdouble))(x),
+        "grad_complex64_0d_output": lambda: grad(lambda v: anp.sum(v.astype(onp.complex64) * onp.complex64(1j)))(x),
+        "value_and_grad_complex64_output": lambda: value_and_grad(lambda v: anp.sum(v) * onp.ones(1, dtype=onp.complex64))(x),
+        "elementwise_grad_complex64_output": lambda: elementwise_grad(lambda v: v * onp.ones(3, dtype=onp.complex64) * onp.complex64(1j))(x),
+        "elementwise_grad_clongdouble_output": lambda: elementwise_grad(lambda v: v * onp.ones(3, dtype=onp.clongdouble))(x),
         "value_and_grad_vector_output": lambda: value_and_grad(lambda v: v * 2.0)(x),
         "value_and_grad_complex_output": lambda: value_and_grad(lambda v: anp.sum(v) * 1j)(x),
         "elementwise_grad_complex_output": lambda: elementwise_grad(lambda v: v * (1.0 + 1.0j))(x),
@@ -586,6 +594,23 @@ def protocol_programs():
         "operator_itemgetter": lambda xp, a: operator.itemgetter(2, 0)(a)[0] * a[1],
         "map_lambda": lambda xp, a: sum(map(lambda v: v * v * v, a)),
         "divmod": lambda xp, a: divmod(a, 0.7)[1][0] * a[1],
+        # NumPy procedures that return None and write a traced value into a plain buffer
+        "copyto_plain_buffer": lambda xp, a: (lambda buf: (xp.copyto(buf, a), xp.sum(buf * buf))[1])(onp.zeros(3)),
+        "put_plain_buffer": lambda xp, a: (lambda buf: (xp.put(buf, [0, 1, 2], a), xp.sum(buf * buf))[1])(onp.zeros(3)),
+        "fill_diagonal_plain_buffer": lambda xp, a: (lambda buf: (xp.fill_diagonal(buf, a), xp.sum(buf * buf))[1])(onp.zeros((3, 3))),
+        "place_plain_buffer": lambda xp, a: (lambda buf: (xp.place(buf, onp.ones(3, dtype=bool), a), xp.sum(buf * buf))[1])(onp.zeros(3)),
+        "putmask_plain_buffer": lambda xp, a: (lambda buf: (xp.putmask(buf, onp.ones(3, dtype=bool), a), xp.sum(buf * buf))[1])(onp.zeros(3)),
+        "put_along_axis_plain_buffer": lambda xp, a: (lambda buf: (xp.put_along_axis(buf, onp.array([[0], [1], [2]]), xp.reshape(a, (3, 1)), 1), xp.sum(buf * buf))[1])(onp.zeros((3, 2))),
+        # out=: the RETURNED value carries the derivative (the caller's buffer is a plain array by construction;
+        # reading it back instead of the result is outside what the property states)
+        "out_keyword_returned_value": lambda xp, a: (lambda buf: xp.sum(xp.multiply(a, a, out=buf) * a))(onp.zeros(3)),
+        "out_keyword_sum_returned_value": lambda xp, a: (lambda buf: xp.sum(a * a, out=buf) * a[0])(onp.zeros(())),
+        # results of linalg functions read by field name
+        "eigh_field_eigenvalues": lambda xp, a: xp.sum(xp.linalg.eigh(xp.outer(a, a) + onp.diag([1.0, 2.0, 4.0])).eigenvalues * onp.array([1.0, 2.0, 3.0])),
+        "slogdet_field_logabsdet": lambda xp, a: xp.linalg.slogdet(xp.outer(a, a) + onp.diag([1.0, 2.0, 4.0])).logabsdet,
+        "svd_field_S": lambda xp, a: xp.sum(xp.linalg.svd(xp.outer(a, a) + onp.diag([1.0, 2.0, 4.0])).S * onp.array([1.0, 2.0, 3.0])),
+        "eig_field_eigenvalues": lambda xp, a: xp.sum(xp.real(xp.linalg.eig(xp.outer(a, a) + onp.diag([1.0, 2.0, 4.0])).eigenvalues)),
+        "getattr_builtin_T": lambda xp, a: xp.sum(getattr(xp.outer(a, a), "T") * onp.arange(9.0).reshape(3, 3)),
         "round_builtin": lambda xp, a: round(a[0]) * a[1],
     }
     return P_
